@@ -256,6 +256,18 @@ def gen_C01(tier, rng):
         r3 = c.r("bigconv T %d" % r0); c.q("weight %d %d" % (r3, expected))
         dist["table_of_2^%d_rows" % nv_] += 1
         cases.append(c.done("big%d/%d" % (nv_, rep), True))
+    # conversions of objects that are the RESULT of operations (restriction, quantifiers, substitution, connectives), not
+    # only of freshly built ones: random programs as in C15, then every register converted to the two other representations
+    for k_ in range(150 if tier == "quick" else 2000):
+        c = Case("c01_h%d" % k_)
+        names = gen.NAMES[: rng.randint(3, 5)]
+        kinds = random_program(rng, c, rng.randint(5, 12), names, allow_tb=False)
+        for i_, kk in enumerate(kinds):
+            for tgt in "ETB":
+                if tgt == kk or (kk == "T" and tgt == "B"): continue
+                r_ = c.r("conv %s %d" % (tgt, i_)); c.q("obs %d" % r_)
+        dist["derived_objects"] += 1
+        cases.append(c.done("hist%d" % k_, True))
     for _ in range(120 if tier == "quick" else 1200):
         names = gen.NAMES[: rng.randint(2, 7)]
         e = gen.rand_tree(rng, rng.randint(2, 6), names)
@@ -268,7 +280,7 @@ def gen_C01(tier, rng):
         dist["random_chain"] += 1
         cases.append(c.done(pe(e), True))
     return {"cases": cases, "exhaustive": True, "dist": dict(dist),
-            "rule": "every truth function of <= 3 variables as an expression (DNF/CNF/Shannon shapes; quick: one shape per 3-variable function) pushed through EVERY conversion path of length <= %d (2+4+..+2^k paths), full observation after each step; parity / majority / xor-rich functions of 5-7 (9) variables through the diagram paths (large diagrams and normal forms); sparse asymmetric DNF/CNF of 8-10 (12) variables through the table paths; single And/Or nodes of 17-40 (65) operands through expression <-> diagram (evaluation at assignments singling out each operand, weight); tables of 2^17 (2^18) rows out of diagrams and expressions, observed by their weight against a closed form (the model does not execute these); random trees through random chains of 3-10 conversions; non-trivial = non-constant function; distinct = (function, shape)" % depth}
+            "rule": "every truth function of <= 3 variables as an expression (DNF/CNF/Shannon shapes; quick: one shape per 3-variable function) pushed through EVERY conversion path of length <= %d (2+4+..+2^k paths), full observation after each step; parity / majority / xor-rich functions of 5-7 (9) variables through the diagram paths (large diagrams and normal forms); sparse asymmetric DNF/CNF of 8-10 (12) variables through the table paths; single And/Or nodes of 17-40 (65) operands through expression <-> diagram (evaluation at assignments singling out each operand, weight); tables of 2^17 (2^18) rows out of diagrams and expressions, observed by their weight against a closed form (the model does not execute these); objects produced by random programs of operations converted to the other representations; random trees through random chains of 3-10 conversions; non-trivial = non-constant function; distinct = (function, shape)" % depth}
 
 
 # ------------------------------------------------------------------ C03 / C04
